@@ -7,7 +7,7 @@ import re
 
 VERIF = os.path.dirname(os.path.dirname(os.path.abspath(__file__)))
 DPROP = dict(D1="C11", D14="C11", D7="C11", D11="C09", D13="C09", D2="C02", D3="C04", D5="C05", D6="C08", D7b="C08", D19="C08",
-             D10="C08", D20="C08", D18="C03", D22="C17", D16="C20", D17="C20", D24="C08")
+             D10="C08", D20="C08", D18="C03", D22="C17", D16="C20", D17="C20", D24="C08", D25="C06")
 NOTES = {
     "C11-f": "not reported, on purpose: differs from the pinned code only for SOURCES that report Interrupted; no statement speaks of them and the pinned code itself does not retry them everywhere (DESIGN 10.14 round 12)",
     "C04-g": "not reported, on purpose: same reason as C11-f (a source reporting Interrupted once)",
